@@ -53,8 +53,9 @@ fix(
     (
         TBS,
         "            self.parameters.merge(extension_parameters)\n",
-        "            self.parameters.merge(extension_parameters)\n"
-        "            TaxBenefitSystem.get_parameters_at_instant.cache_clear()\n",
+        "            # Forget the memoised views first: a merge that stops half-way has already changed the tree.\n"
+        "            TaxBenefitSystem.get_parameters_at_instant.cache_clear()\n"
+        "            self.parameters.merge(extension_parameters)\n",
     ),
     (
         "openfisca_core/reforms/reform.py",
